@@ -16,6 +16,9 @@ enum Target {
     ShapeStr,
     /// struct with optional fields a, b, c, k, x, y (root must be a mapping)
     Struct,
+    /// struct with fixed-arity fields a: (i64, i64), b: (i64,), c: Vec<i64>: a merged value must
+    /// be consumed by its field exactly like a value written in place (no surplus element dropped)
+    Arity,
 }
 
 #[derive(Clone, Debug, Serialize, Deserialize)]
@@ -38,12 +41,20 @@ struct St {
     y: Option<U>,
 }
 
+#[derive(Debug, Deserialize, PartialEq)]
+struct Ar {
+    a: Option<(i64, i64)>,
+    b: Option<(i64,)>,
+    c: Option<Vec<i64>>,
+}
+
 fn run(text: &str, shape: Option<&Node>, dup: Dup, target: Target) -> Result<String, String> {
     let o = DeOpts::with_dup(dup).build();
     let e = |e: serde_saphyr::Error| e.without_snippet().to_string();
     match target {
         Target::Untyped => serde_saphyr::from_str_with_options::<U>(text, o).map(|v| format!("{v:?}")).map_err(e),
         Target::Struct => serde_saphyr::from_str_with_options::<St>(text, o).map(|v| format!("{v:?}")).map_err(e),
+        Target::Arity => serde_saphyr::from_str_with_options::<Ar>(text, o).map(|v| format!("{v:?}")).map_err(e),
         Target::ShapeStr => serde_saphyr::with_deserializer_from_str_with_options(text, o, |d| ShapeSeed { shape, mode: ScalarMode::Str }.deserialize(d))
             .map(|v| format!("{v:?}"))
             .map_err(e),
@@ -385,6 +396,48 @@ impl Property for C03 {
             }
         }
         ctx.subspace("own key lists (10) x <=2 merge entries from 48 options x interleavings (two-merge shapes: stride 7 in quick, all in thorough; policy/target rotate)", total, stride == 1);
+
+        // ---------------- merged values of fixed-arity fields --------------------------------
+        {
+            let ints = |n: usize| Node::seq(true, (0..n).map(|i| s(&(i + 1).to_string())).collect());
+            let mut idx = 0u64;
+            for key in ["a", "b", "c"] {
+                for n in 0..=3usize {
+                    for supply in 0..6 {
+                        for dup in Dup::ALL {
+                            idx += 1;
+                            if !ctx.mine(idx) {
+                                continue;
+                            }
+                            let src = Node::map(true, vec![(s(key), ints(n))]);
+                            let doc = match supply {
+                                0 => Node::map(false, vec![(s(key), ints(n))]),
+                                1 => Node::map(false, vec![(s("<<"), src)]),
+                                2 => Node::map(false, vec![(s("defs"), Node::seq(false, vec![src.anchored("m")])), (s("t"), Node::map(false, vec![(s("<<"), Node::alias("m"))]))]),
+                                3 => Node::map(false, vec![(s("<<"), Node::seq(true, vec![Node::map(true, vec![]), src]))]),
+                                4 => Node::map(false, vec![(s("<<"), Node::map(true, vec![(s("<<"), src)]))]),
+                                _ => Node::map(false, vec![(s("defs"), Node::seq(false, vec![ints(n).anchored("v")])), (s("t"), Node::map(false, vec![(s("<<"), Node::map(true, vec![(s(key), Node::alias("v"))]))]))]),
+                            };
+                            // the struct is the root, or (with definitions) the value of `t`: only root documents fit `Ar`
+                            let doc = match &doc.kind {
+                                Kind::Map { entries, .. } if entries.len() == 2 && matches!(&entries[0].0.kind, Kind::Scalar { value, .. } if value == "defs") => {
+                                    // move the definitions into an ignored field of the root
+                                    let mut root = vec![(s("defs"), entries[0].1.clone())];
+                                    if let Kind::Map { entries: te, .. } = &entries[1].1.kind {
+                                        root.extend(te.iter().cloned());
+                                    }
+                                    Node::map(false, root)
+                                }
+                                _ => doc,
+                            };
+                            let c = Case { doc, layout: Layout::default(), dup, target: Target::Arity, expect: "ok".into() };
+                            ctx.case("merged-arity", &c, supply > 0);
+                        }
+                    }
+                }
+            }
+            ctx.subspace("3 fixed-arity fields x sequence lengths 0-3 x 6 ways of supplying the value (in place, inline merge, merge through an alias, sequence source, nested merge, merged alias) x 3 policies", idx, true);
+        }
 
         // ---------------- random nested merges ---------------------------------------
         let strat = (
